@@ -91,7 +91,7 @@ Record node := mknode {
   dirty : bool;           (* the reused LogOp still holds a half-decoded pin with nil origins *)
   crashed : bool;         (* the process panicked inside FSM.Apply *)
   pending : option nat;   (* FSM.Snapshot returned, Persist not yet run: the index hashicorp/raft will label it with *)
-  snaps : list (nat * pinset);  (* snapshots persisted by this node, oldest first: (label, content) *)
+  snaps : list (nat * pinset);  (* the snapshot store of this node, in order of writing: (label, content) of what it persisted and of what was installed on it *)
   calls : list tcall;     (* tracker calls issued so far, newest first *)
   optype : N              (* LogOp.Type left in the reused LogOp by the last entry that decoded: 1 pin, 2 unpin, 0 none / unknown *)
 }.
@@ -145,6 +145,11 @@ Definition snap_persist (nd : node) : node :=
 Definition restore (s : nat * pinset) (nd : node) : node :=
   if crashed nd then nd else
   mknode (restore_onto (st nd) (snd s)) (fst s) true false (dirty nd) false (pending nd) (snaps nd) (calls nd) (optype nd).
+(* InstallSnapshot: hashicorp/raft writes the received snapshot into the replica's OWN snapshot store (installSnapshot: Create, copy,
+   Close), then hands it to FSM.Restore: the store of a replica holds the snapshots it persisted and the ones it was sent *)
+Definition install (s : nat * pinset) (nd : node) : node :=
+  if crashed nd then nd else
+  mknode (restore_onto (st nd) (snd s)) (fst s) true false (dirty nd) false (pending nd) (snaps nd ++ [s]) (calls nd) (optype nd).
 (* a new process on the same stores: empty datastore, fresh FSM and LogOp; snapshots and the tracker's record survive *)
 Definition restart (nd : node) : node := mknode [] 0 false false false false None (snaps nd) (calls nd) 0.
 
@@ -165,7 +170,8 @@ Inductive mevent :=
 | MApply (n : nat)              (* node n's FSM is given its next entry *)
 | MSnapReq (n : nat)            (* FSM.Snapshot on n *)
 | MPersist (n : nat)            (* the snapshot requested on n is written to n's snapshot store *)
-| MRestore (n src k : nat)      (* FSM.Restore on n of the k-th snapshot persisted by src (install from the leader, or own store at start) *)
+| MRestore (n src k : nat)      (* FSM.Restore on n of the k-th snapshot of src's store: src = n, the own store (at start); src <> n, an install from
+                                   the leader, which also puts the snapshot into n's store *)
 | MRestart (n : nat).           (* n's process ends (shutdown, crash or kill) and starts again on its stores *)
 
 (* Consensus.LogPin refuses, before committing, a pin that does not ProtoMarshal (fix of S24): such an op never reaches the log *)
@@ -183,7 +189,7 @@ Definition step (cl : cluster) (e : mevent) : cluster :=
   | MPersist n => mkcluster (log cl) (upd n snap_persist (nodes cl))
   | MRestore n src k =>
       match nth_error (snaps (getn src cl)) k with
-      | Some s => mkcluster (log cl) (upd n (restore s) (nodes cl))
+      | Some s => mkcluster (log cl) (upd n (if Nat.eqb src n then restore s else install s) (nodes cl))
       | None => cl
       end
   | MRestart n => mkcluster (log cl) (upd n restart (nodes cl))
@@ -194,9 +200,16 @@ Definition run (cl : cluster) (es : list mevent) : cluster := fold_left step es 
 Definition view (nd : node) : option pinset :=
   if negb (inited nd) then Some [] else if incons nd then None else Some (st nd).
 
+(* the newest snapshot of a store (the file store orders by (term, index)): the highest label; among equal labels the one
+   written last *)
+Fixpoint newest (l : list (nat * pinset)) : option (nat * pinset) :=
+  match l with
+  | [] => None
+  | s :: r => match newest r with Some t => if Nat.ltb (fst t) (fst s) then Some s else Some t | None => Some s end
+  end.
 (* OfflineState: the newest snapshot in the store decoded onto an empty datastore *)
 Definition offline (nd : node) : pinset :=
-  match rev (snaps nd) with [] => [] | s :: _ => restore_merge [] (snd s) end.
+  match newest (snaps nd) with None => [] | Some s => restore_merge [] (snd s) end.
 
 (* ---- vocabulary of the statements ---- *)
 Definition op_key (op : logop) : option N :=
